@@ -28,6 +28,15 @@ fn mask_to_vec(sim: &Sim, m: u64) -> Vec<Enc> {
             v.reverse();
         }
     }
+    // an application may enable the same encoding more than once (defaults, then per-service
+    // settings): it is enabled, that is all
+    if !v.is_empty() && sim.chance(1, 4) {
+        let dup = v[sim.draw(v.len() as u64) as usize];
+        v.insert(sim.draw(v.len() as u64 + 1) as usize, dup);
+        if sim.chance(1, 2) {
+            v.insert(0, dup);
+        }
+    }
     v
 }
 
